@@ -279,7 +279,11 @@ func Load(ctx context.Context, wd string, env []string, tags string, patterns []
 				ec.add(notePositionAll(fset.Position(obj.Pos()), errs)...)
 				continue
 			}
-			pset := item.(*ProviderSet)
+			pset, ok := item.(*ProviderSet)
+			if !ok {
+				ec.add(notePosition(fset.Position(obj.Pos()), fmt.Errorf("%s is not a provider set: its value is not a call to wire.NewSet or another provider set", name)))
+				continue
+			}
 			// pset.VarName and pset.PkgPath may differ from this variable's, since it
 			// could be an alias to another provider set.
 			id := ProviderSetID{ImportPath: pkg.PkgPath, VarName: name}
